@@ -10,7 +10,7 @@ import os
 from gvmon import dbdump
 from gvmon.monitors import contracts
 
-RULE = ("files = interleavings of directive/comment/blank/feature lines: all sequences of <= 5 (quick) / <= 7 (thorough) "
+RULE = ("files = interleavings of directive/comment/blank/feature lines: all sequences of <= 5 (quick) / <= 8 (thorough) "
         "line kinds x checklines {0,1,2,10}, and random files with 0..30 features before a directive, with/without a "
         "##FASTA or bare '>' section holding ##-looking and tab-separated lines, LF and CRLF, path and from_string, "
         "inferred and supplied dialect; non-trivial = a directive sits after feature number checklines+1 (beyond the "
@@ -169,7 +169,7 @@ def directives_beyond_window(lines, ck):
 
 def run(ctx):
     rng = ctx.rng
-    maxlen = 5 if ctx.tier == "quick" else 7
+    maxlen = 5 if ctx.tier == "quick" else 8
     i = 0
     n = nt = 0
     sample = None
